@@ -146,7 +146,7 @@ def check_output(ds_rows, desc):
 
 def inputs(name):
     I0 = [dict(a=1, b='x'), dict(a=2, b='y'), dict(a=2, b=None), dict(a=3, b='x')]
-    I1b = [dict(a=1, c=Decimal('1.5')), dict(a=3, c=Decimal('2')), dict(a=1, c=Decimal('4.5'))]
+    I1b = [dict(a=1, c=Decimal('1.5')), dict(a=3, c=Decimal('2')), dict(a=1, c=Decimal('4.5')), dict(a=2, c=Decimal('0.5'))]      # key 2 aggregates two source rows
     return [list(map(dict, I0))] if name == 'I0' else [list(map(dict, I0)), list(map(dict, I1b))]
 
 
@@ -161,6 +161,11 @@ def replay_case(c):
             out = []
             names = ['res_%d' % (i + 1) for i in range(len(srcs))]
             cur_first = names[0]
+            if c['prog'] and c['prog'][0]['k'] == 'join':
+                # the source field arrives with a constraint of its own: an aggregate (a sum, a count ...) is a NEW field and must
+                # not inherit it, or valid aggregates become invalid values
+                import dataflows as DF
+                out.append(DF.set_type('a', resources=0, constraints=dict(maximum=3)))
             for s in c['prog']:
                 out.append(real_step(s, cur_first))
             return out
